@@ -12,19 +12,6 @@ predicate on tags and fields at that point; every theorem quantifies over all `t
 namespace InfluxQL.C10
 open InfluxQL Gen
 
-/-- The last step of `ConditionExpr` (dropping top-level parentheses, turning `true` into "no
-condition") does not change the value of the residual. -/
-theorem strip_preserves (L : Expr → Bool) (res0 : Option Expr) :
-    evalOpt L (dropTrue (stripTopParen res0)) = evalOpt L res0 := by
-  cases res0 with
-  | none => rfl
-  | some e =>
-    cases e <;> try rfl
-    case boolean b => cases b <;> rfl
-    case paren inner =>
-      cases inner <;> try rfl
-      case boolean b => cases b <;> rfl
-
 /-- **Soundness of the split.** For a condition of the property's class (`AND` and parentheses
 anywhere, `OR` only between conditions without time comparisons, time compared with `= < <= > >=`
 from either side against integer nanoseconds, numbers, durations, date / date-time / RFC3339
